@@ -793,6 +793,8 @@ impl AssemblyCode {
                             accumulator = None;
                             x_register = None;
                             y_register = None;
+                            // Nothing is known of the flags a subroutine returns with
+                            flags = FlagsState::Unknown;
                         }
                         AsmMnemonic::CPX | AsmMnemonic::CPY | AsmMnemonic::CMP => {
                             flags = FlagsState::Unknown;
